@@ -82,6 +82,13 @@ def apply_event(w, ev):
         w.eof(ev[1])
     elif k == "wait":
         w.send("c2", "qwait", jobids=[ev[1]])
+    elif k == "wait2":
+        w.send("c2", "qwait", jobids=[ev[1], ev[2]])
+    elif k == "addanon":
+        w.njobs += 1
+        w.send("c", "qadd", channel=ev[1], priority=0, timeout=ev[2], payload={"anon": w.njobs})
+    elif k == "wd":
+        w.watchdog(advance=ev[1])
     elif k == "restart":
         w.restart()
     elif HOOKS["apply_event"]:
@@ -237,12 +244,14 @@ def base_enabled(sh, cfg):
             for pr in cfg.prios:
                 for tmo in cfg.timeouts:
                     evs.append(("add", ch, pr, tmo))
+    idle = [wk for wk in sh["idle"] if wk in cfg.workers]
+    alive = [wk for wk in sh["alive"] if wk in cfg.workers]
     if "pull" in ops:
-        for wk in sh["idle"]:
+        for wk in idle:
             for ps in cfg.pullsets:
                 evs.append(("pull", wk, ps))
     if "finish" in ops:
-        for wk in sh["idle"]:
+        for wk in idle:
             for jid in sh["deliv"].get(wk, []):
                 for kind in cfg.finish_kinds:
                     evs.append(("finish", wk, jid, kind))
@@ -250,13 +259,13 @@ def base_enabled(sh, cfg):
         for jid in sh["jobs"]:
             evs.append(("kill", "c", jid))
             if cfg.kill_by_holder:
-                for wk in sh["idle"]:
+                for wk in idle:
                     if jid in sh["holders"].get(wk, []):
                         evs.append(("kill", wk, jid))
     if "tick" in ops and sh["undone"]:
         evs.append(("tick",))
     if "eof" in ops:
-        for wk in sh["alive"]:
+        for wk in alive:
             evs.append(("eof", wk))
     if "readd" in ops:
         for jid in sh["jobs"]:
@@ -264,6 +273,13 @@ def base_enabled(sh, cfg):
     if "wait" in ops and sh["c2idle"]:
         for jid in sh["jobs"]:
             evs.append(("wait", jid))
+    if "wait2" in ops and sh["c2idle"] and len(sh["jobs"]) >= 2:
+        evs.append(("wait2", sh["jobs"][0], sh["jobs"][1]))
+    if "addanon" in ops and sh["njobs"] < cfg.maxjobs:
+        for tmo in cfg.timeouts:
+            evs.append(("addanon", cfg.channels[0], tmo))
+    if "wd" in ops and sh["jobs"]:
+        evs.append(("wd", 20.0))
     return evs
 
 
@@ -289,8 +305,10 @@ def base_shadow_apply(sh, ev):
     elif k == "eof":
         sh["alive"] = [x for x in sh["alive"] if x != ev[1]]
         sh["idle"] = [x for x in sh["idle"] if x != ev[1]]
-    elif k == "wait":
+    elif k in ("wait", "wait2"):
         sh["c2idle"] = False
+    elif k == "addanon":
+        sh["njobs"] += 1
     return sh
 
 
@@ -581,11 +599,12 @@ def tuple_deep(x):
 
 # ----------------------------------------------------------------------------- parent side: the search
 def search(prop, cfg, tier, seed, families, post_restart_only=False, time_cap=None, rule="", assumptions=(), gate=True,
-           extra_cov=None, pre_violations=None):
+           extra_cov=None, pre_violations=None, verdict=None, defer=False, label=""):
+    """defer=True: do not print/write anything, return (cov, verdict) so that several phases share one verdict"""
     t0 = time.time()
     ex = Explorer(prop, cfg, families, post_restart_only)
     p = poolmod.WorkerPool(ex.handle, soft_timeout=30.0, hard_timeout=90.0, mem_gb=4)
-    verdict = report.Verdict(prop, gate=gate)
+    verdict = verdict or report.Verdict(prop, gate=gate)
     for sig, rec in (pre_violations or []):
         verdict.add(sig, rec, count=1)
     w0 = execute([])
@@ -687,7 +706,7 @@ def search(prop, cfg, tier, seed, families, post_restart_only=False, time_cap=No
         p.close()
     if not samples:
         samples = [{"history": [], "cost": 0}]
-    rc = verdict.finish()
+    rc = None if defer else verdict.finish()
     cov = {
         "states": nstates, "transitions": ntrans,
         "traces_validated_against_impl": ntrans + counters["probes"],
@@ -703,6 +722,12 @@ def search(prop, cfg, tier, seed, families, post_restart_only=False, time_cap=No
     }
     if extra_cov:
         cov.update(extra_cov)
+    cov["wall_s"] = round(time.time() - t0, 1)
+    if defer:
+        cov["vacuous"] = bool(nstates < 50 or counters["probes"] and len(drain_outcomes) < 3)
+        print("%s %s [%s]: states=%d transitions=%d probes=%d completed_cost=%d/%d capped=%s wall=%.1fs" % (
+            prop, tier, label, nstates, ntrans, counters["probes"], completed, cfg.bound, capped, time.time() - t0))
+        return cov, verdict
     report.write_evidence(prop, tier, seed, "model_checking", cov, time.time() - t0, getattr(verdict, "n_new", 0), assumptions)
     print("%s %s: states=%d transitions=%d probes=%d completed_cost=%d/%d capped=%s drain_outcomes=%d new_violations=%d known=%d wall=%.1fs" % (
         prop, tier, nstates, ntrans, counters["probes"], completed, cfg.bound, capped, len(drain_outcomes),
@@ -710,6 +735,38 @@ def search(prop, cfg, tier, seed, families, post_restart_only=False, time_cap=No
     # vacuity guards
     if nstates < 50 or counters["probes"] and len(drain_outcomes) < 3:
         print("HARNESS-ERROR vacuous exploration: states=%d drain outcomes=%d" % (nstates, len(drain_outcomes)))
+        return 2
+    return rc
+
+
+def search_phases(prop, phases, tier, seed, families, post_restart_only=False, rule="", assumptions=(), gate=True):
+    """phases: [(label, cfg, time_cap)] explored one after the other with one verdict and one evidence file"""
+    t0 = time.time()
+    verdict = None
+    covs = []
+    for label, cfg, cap in phases:
+        cov, verdict = search(prop, cfg, tier, seed, families, post_restart_only=post_restart_only, time_cap=cap, rule=rule,
+                              assumptions=assumptions, gate=gate, verdict=verdict, defer=True, label=label)
+        cov["phase"] = label
+        covs.append(cov)
+    rc = verdict.finish()
+    main = dict(covs[0])
+    main["states"] = sum(c["states"] for c in covs)
+    main["transitions"] = sum(c["transitions"] for c in covs)
+    main["traces_validated_against_impl"] = sum(c["traces_validated_against_impl"] for c in covs)
+    main["evaluations"] = sum(c["evaluations"] for c in covs)
+    main["distinct_nontrivial"] = sum(c["distinct_nontrivial"] for c in covs)
+    main["exhaustive"] = all(c["exhaustive"] for c in covs)
+    main["samples"] = [x for c in covs for x in c["samples"][:3]]
+    main["phases"] = [{k: c[k] for k in ("phase", "states", "transitions", "bound_cost", "completed_cost_level", "time_cap_hit",
+                                          "max_events_per_loop_iteration", "alphabet_ops", "max_jobs", "wall_s", "distinct_drain_outcomes")} for c in covs]
+    main["known_findings_seen"] = getattr(verdict, "n_known", 0)
+    report.write_evidence(prop, tier, seed, "model_checking", main, time.time() - t0, getattr(verdict, "n_new", 0), assumptions)
+    print("%s %s: phases=%d states=%d transitions=%d exhaustive=%s new_violations=%d known=%d wall=%.1fs" % (
+        prop, tier, len(covs), main["states"], main["transitions"], main["exhaustive"], getattr(verdict, "n_new", 0),
+        getattr(verdict, "n_known", 0), time.time() - t0))
+    if covs[0].get("vacuous"):
+        print("HARNESS-ERROR vacuous exploration in the main phase")
         return 2
     return rc
 
